@@ -71,7 +71,7 @@ def run(rep, tier, seed):
         for k, (sc, c) in enumerate(cs):
             if c.get("delay") and not common.keep(k, 16):
                 c = dict(c)
-                c.pop("delay")
+                c.pop("delay", None)
             cs2.append((sc, c))
         cs = cs2
     e1.sweep(rep, cs, monitors_for, budgets, light=True, tie=True)
